@@ -171,6 +171,7 @@ func (q *BooleanQuery) Searcher(ctx context.Context, i index.IndexReader, m mapp
 	}
 
 	var filterFunc searcher.FilterFunc
+	var filterSearcher search.Searcher
 	if q.Filter != nil {
 		// create a new searcher options with disabled scoring, since filter should not affect scoring
 		// and we don't want to pay the cost of scoring if we don't need it, also disable term vectors
@@ -180,7 +181,7 @@ func (q *BooleanQuery) Searcher(ctx context.Context, i index.IndexReader, m mapp
 			IncludeTermVectors: false,
 			Score:              "none",
 		}
-		filterSearcher, err := q.Filter.Searcher(ctx, i, m, filterOptions)
+		filterSearcher, err = q.Filter.Searcher(ctx, i, m, filterOptions)
 		if err != nil {
 			return nil, err
 		}
@@ -240,10 +241,13 @@ func (q *BooleanQuery) Searcher(ctx context.Context, i index.IndexReader, m mapp
 		if err != nil {
 			return nil, err
 		}
-		return searcher.NewFilteringSearcher(ctx,
-			mustSearcher,
-			filterFunc,
-		), nil
+		return &filteredSearcher{
+			Searcher: searcher.NewFilteringSearcher(ctx,
+				mustSearcher,
+				filterFunc,
+			),
+			filterSearcher: filterSearcher,
+		}, nil
 	}
 
 	// if only mustNotSearcher, start with MatchAll
@@ -260,9 +264,28 @@ func (q *BooleanQuery) Searcher(ctx context.Context, i index.IndexReader, m mapp
 	}
 
 	if filterFunc != nil {
-		return searcher.NewFilteringSearcher(ctx, bs, filterFunc), nil
+		return &filteredSearcher{
+			Searcher:       searcher.NewFilteringSearcher(ctx, bs, filterFunc),
+			filterSearcher: filterSearcher,
+		}, nil
 	}
 	return bs, nil
+}
+
+// filteredSearcher is a searcher filtered by the filter clause of a boolean
+// query; closing it also closes the searcher of the filter clause, which
+// is only reachable through the filter function.
+type filteredSearcher struct {
+	search.Searcher
+	filterSearcher search.Searcher
+}
+
+func (s *filteredSearcher) Close() error {
+	err := s.Searcher.Close()
+	if cerr := s.filterSearcher.Close(); err == nil {
+		err = cerr
+	}
+	return err
 }
 
 func (q *BooleanQuery) Validate() error {
